@@ -186,6 +186,10 @@ def cuts_for(bs, tier):
                 out.add((p + mid + tail, p, p + mid))
     if tier == 'quick':
         out = {x for x in out if x[0] <= 3 * bs + bs + 6}
+    # cut points AFTER whole blocks have been compressed (clone / reset of a state whose counters are non-zero)
+    for c1 in ((bs, bs + 1, 2 * bs + 1) if tier == 'quick' else (bs, bs + 1, 2 * bs - 1, 2 * bs, 2 * bs + 1, 3 * bs + 1)):
+        out.add((c1 + bs + 2, c1, c1 + 1))
+        out.add((c1, c1, c1))
     return sorted(out)
 
 
